@@ -61,6 +61,10 @@ pub fn g_tree(t: &ErasedSegment, tok_ids: &std::collections::HashSet<u32>) -> St
 pub fn has_match(m: &MatchResult) -> bool {
     m.span.start != m.span.end || !m.insert_segments.is_empty()
 }
+/// mirror of Apply.Model.produces: `apply` yields at least one segment
+fn produces(m: &MatchResult) -> bool {
+    m.span.start != m.span.end || !m.insert_segments.is_empty() || m.child_matches.iter().any(produces)
+}
 fn wf_node(n: u32, m: &MatchResult) -> Result<(), String> {
     let (s, e) = (m.span.start, m.span.end);
     let sp: Vec<(u32, u32)> = m.child_matches.iter().map(|c| (c.span.start, c.span.end)).collect();
@@ -103,7 +107,7 @@ fn wf_node(n: u32, m: &MatchResult) -> Result<(), String> {
     match &m.matched {
         None => {}
         Some(Matched::SyntaxKind(k)) => {
-            if !(s != e || !ins.is_empty()) {
+            if !(s != e || !ins.is_empty() || m.child_matches.iter().any(produces)) {
                 return Err(format!("empty node match of kind {:?} at {s}", k));
             }
         }
